@@ -3,7 +3,6 @@
 package main
 
 import (
-	"sort"
 	"encoding/json"
 	"fmt"
 	"mltwist/internal/consoleui/zzverifui"
@@ -14,6 +13,7 @@ import (
 	"mltwist/internal/state/memory"
 	"mltwist/pkg/expr"
 	"mltwist/pkg/model"
+	"sort"
 	"strings"
 	"time"
 )
@@ -46,84 +46,85 @@ func (l literal) String() string {
 }
 
 type uiCase struct {
-	Case   string     `json:"case"`
-	Op     string     `json:"op"` // uinew | cmd | render | parts | parseaddr | readvalue | format
-	Base   []int      `json:"base"`
-	Image  []emuBlock `json:"image"`
-	Data   []emuBlock `json:"data"`
-	Entry  int        `json:"entry"`
-	Toks   []string   `json:"toks"`
-	Seps   []int      `json:"seps"`
-	Filler string     `json:"filler"`
-	N      int        `json:"n"`
-	Rel    bool       `json:"rel"` // render / parts: grant "declared minimum + n" lines
-	Which  string     `json:"which"`
-	NRegs  int        `json:"nregs"`
-	WithIP bool       `json:"withip"`
-	Stores [][]int    `json:"stores"` // parts: [[off, len], ...] constant stores making the memory layout
-	Lit    literal    `json:"lit"`
-	W      int        `json:"w"`
-	Text   []string   `json:"text"` // format: words; joined with single spaces (SepsT gives the number of spaces)
-	SepsT  []int      `json:"sepst"`
-	Indent int        `json:"indent"`
-	Width  int        `json:"width"`
-	Args   json.RawMessage `json:"args"`   // structured description of the argument tokens (echoed for the specification)
-	FillV  json.RawMessage `json:"fillv"`  // structured description of the line typed at value prompts (echoed)
-	Pat    string     `json:"pat"`         // find: the literal pattern the command searches for ("" otherwise)
-	MemStores []memStoreDesc `json:"memstores"` // memnew: constant stores building the memory
-	MemKind string    `json:"memkind"`     // memnew: sparse | bytes | overlay | nil
+	Case      string          `json:"case"`
+	Op        string          `json:"op"` // uinew | cmd | render | parts | parseaddr | readvalue | format
+	Base      []int           `json:"base"`
+	Image     []emuBlock      `json:"image"`
+	Data      []emuBlock      `json:"data"`
+	Entry     int             `json:"entry"`
+	Toks      []string        `json:"toks"`
+	Seps      []int           `json:"seps"`
+	Filler    string          `json:"filler"`
+	N         int             `json:"n"`
+	Rel       bool            `json:"rel"` // render / parts: grant "declared minimum + n" lines
+	Which     string          `json:"which"`
+	NRegs     int             `json:"nregs"`
+	WithIP    bool            `json:"withip"`
+	Stores    [][]int         `json:"stores"` // parts: [[off, len], ...] constant stores making the memory layout
+	Lit       literal         `json:"lit"`
+	W         int             `json:"w"`
+	Text      []string        `json:"text"` // format: words; joined with single spaces (SepsT gives the number of spaces)
+	SepsT     []int           `json:"sepst"`
+	Indent    int             `json:"indent"`
+	Width     int             `json:"width"`
+	Args      json.RawMessage `json:"args"`      // structured description of the argument tokens (echoed for the specification)
+	FillV     json.RawMessage `json:"fillv"`     // structured description of the line typed at value prompts (echoed)
+	Pat       string          `json:"pat"`       // find: the literal pattern the command searches for ("" otherwise)
+	MemStores []memStoreDesc  `json:"memstores"` // memnew: constant stores building the memory
+	MemKind   string          `json:"memkind"`   // memnew: sparse | bytes | overlay | nil
 }
 
 type memStoreDesc struct {
-	Addr  []int `json:"addr"`
-	Bytes []int `json:"bytes"`
+	Addr  []int  `json:"addr"`
+	Bytes []int  `json:"bytes"`
 	Layer string `json:"layer"`
 }
 
 type blockDesc struct {
-	Pos   int               `json:"pos"`
-	Begin []int             `json:"begin"`
-	BeginHex string         `json:"beginhex"`
-	BeginOff int            `json:"beginoff"` // begin - code base (-1 if outside 0..2^20)
-	Ins   []zzverifui.LineTok `json:"ins"`
-	Lo    []int             `json:"lo"` // the code's own move bounds of every instruction (inclusive indices)
-	Up    []int             `json:"up"`
+	Pos      int                 `json:"pos"`
+	Begin    []int               `json:"begin"`
+	BeginHex string              `json:"beginhex"`
+	BeginOff int                 `json:"beginoff"` // begin - code base (-1 if outside 0..2^20)
+	Ins      []zzverifui.LineTok `json:"ins"`
+	Lo       []int               `json:"lo"` // the code's own move bounds of every instruction (inclusive indices)
+	Up       []int               `json:"up"`
 }
 
 type uiEvent struct {
 	uiCase
-	Reset   bool                `json:"reset"`
-	Err     bool                `json:"err"`
-	Line    string              `json:"line"`
-	Outcome string              `json:"outcome"`
-	Panic   string              `json:"panic"`
-	Output  string              `json:"output"`
-	Depth   int                 `json:"depth"`
-	Mode    string              `json:"modename"`
-	HasList bool                `json:"haslist"`
-	Cursor  int                 `json:"cursor"`
-	Listing []zzverifui.LineTok `json:"listing"`
-	Fresh   []zzverifui.LineTok `json:"fresh"`
-	Proj    []blockDesc         `json:"proj"`
-	EntryAt []int               `json:"entryat"` // [block position, instruction index] of the entry point, or []
-	HasMem  bool                `json:"hasmem"`
-	MemRows []zzverifui.MemRow  `json:"memrows"`
-	MemCur  int                 `json:"memcur"`
-	Min     int                 `json:"min"`
-	Max     int                 `json:"max"`
-	Lines   int                 `json:"lines"`
-	Val     []int               `json:"val"`
-	Hits    []int               `json:"hits"` // find: lines (before the command) whose text contains the literal pattern
-	PreCur  int                 `json:"precur"`
-	OutL    []string            `json:"outl"` // format: output lines
-	FmtLines []fmtLine          `json:"fmtlines"`
-	SameChars bool              `json:"samechars"`
-	WLens   []int               `json:"wlens"`
-	Hang    bool                `json:"hang"`
-	Shown   []int               `json:"shown"`  // render: indices of the lines printed
-	HasIP   bool                `json:"hasip"`  // emulate mode: the emulated instruction pointer is known
-	IPOff   int                 `json:"ipoff"`  // ... as offset from the code base (-1: outside 0..2^20)
-	EmuRegs []regKV             `json:"emuregs"` // emulate mode: the registers the emulator knows, sorted by key
+	Reset       bool   `json:"reset"`
+	Err         bool   `json:"err"`
+	Line        string `json:"line"`
+	Outcome     string `json:"outcome"`
+	Panic       string `json:"panic"`
+	renderPanic string
+	Output      string              `json:"output"`
+	Depth       int                 `json:"depth"`
+	Mode        string              `json:"modename"`
+	HasList     bool                `json:"haslist"`
+	Cursor      int                 `json:"cursor"`
+	Listing     []zzverifui.LineTok `json:"listing"`
+	Fresh       []zzverifui.LineTok `json:"fresh"`
+	Proj        []blockDesc         `json:"proj"`
+	EntryAt     []int               `json:"entryat"` // [block position, instruction index] of the entry point, or []
+	HasMem      bool                `json:"hasmem"`
+	MemRows     []zzverifui.MemRow  `json:"memrows"`
+	MemCur      int                 `json:"memcur"`
+	Min         int                 `json:"min"`
+	Max         int                 `json:"max"`
+	Lines       int                 `json:"lines"`
+	Val         []int               `json:"val"`
+	Hits        []int               `json:"hits"` // find: lines (before the command) whose text contains the literal pattern
+	PreCur      int                 `json:"precur"`
+	OutL        []string            `json:"outl"` // format: output lines
+	FmtLines    []fmtLine           `json:"fmtlines"`
+	SameChars   bool                `json:"samechars"`
+	WLens       []int               `json:"wlens"`
+	Hang        bool                `json:"hang"`
+	Shown       []int               `json:"shown"`   // render: indices of the lines printed
+	HasIP       bool                `json:"hasip"`   // emulate mode: the emulated instruction pointer is known
+	IPOff       int                 `json:"ipoff"`   // ... as offset from the code base (-1: outside 0..2^20)
+	EmuRegs     []regKV             `json:"emuregs"` // emulate mode: the registers the emulator knows, sorted by key
 }
 
 type regKV struct {
@@ -182,9 +183,14 @@ func (u *uiSession) describe(ev *uiEvent) {
 	}
 	ev.Proj = []blockDesc{}
 	ev.EntryAt = []int{}
-	ev.MemRows, ev.MemCur, ev.HasMem = s.MemRows()
+	var rp string
+	ev.MemRows, ev.MemCur, ev.HasMem, rp = s.MemRows()
 	if ev.MemRows == nil {
 		ev.MemRows = []zzverifui.MemRow{}
+	}
+	if rp != "" {
+		// the memory view is drawn after every input line: a crash while drawing it is a crash of that line
+		ev.renderPanic = "render: " + rp
 	}
 	if s.Code == nil {
 		return
@@ -216,9 +222,13 @@ func (u *uiSession) describe(ev *uiEvent) {
 			}
 		}
 	}
-	ev.MemRows, ev.MemCur, ev.HasMem = s.MemRows()
+	ev.MemRows, ev.MemCur, ev.HasMem, rp = s.MemRows()
 	if ev.MemRows == nil {
 		ev.MemRows = []zzverifui.MemRow{}
+	}
+	if rp != "" {
+		// the memory view is drawn after every input line: a crash while drawing it is a crash of that line
+		ev.renderPanic = "render: " + rp
 	}
 }
 
@@ -356,6 +366,10 @@ func init() {
 				u = &uiSession{s: s}
 				u.describe(&ev)
 			})
+			if ev.Panic == "" && ev.renderPanic != "" {
+				ev.Panic = ev.renderPanic
+				u = nil
+			}
 		case "cmd":
 			if u == nil {
 				break
@@ -399,6 +413,9 @@ func init() {
 				break
 			}
 			ev.Panic = guard(func() { u.describe(&ev) })
+			if ev.Panic == "" {
+				ev.Panic = ev.renderPanic
+			}
 			if ev.Panic != "" {
 				ev.Outcome = "panic"
 				u = nil
